@@ -449,6 +449,13 @@ def run_c05(o, ctx, tier, seed, replay=None):
     cases = c05_cases(seed, t)
     if replay is None:
         hl = hdr_framing_lines(seed, t)
+        # op sequences kept by the behaviour-guided generator that consist of added framing fields only
+        from gen import hdr as H_
+        for fl in fuzz_cases(o, ctx, "hdr", t, seed):
+            pl = H_.parse_line(fl)
+            if pl and pl[0] and all(op[0] == "add" and op[1].lower() in (b"content-length", b"transfer-encoding", b"host", b"x-foo") for op in pl[0]) \
+                    and all(all(c == 9 or 32 <= c <= 126 or c >= 128 for c in op[2]) for op in pl[0]):   # RFC field-value bytes only
+                hl.append((pl[0], fl))
         impl_h, model_h = diff_run(o, ctx, [l for _, l in hl], nontrivial=lambda c, a: c.count(";") >= 1, tags=lambda c, a: "hdr-framing")
         for (ops, line), a in zip(hl, impl_h):
             cls = [v for k, n, v in ops if n.lower() == b"content-length"]
